@@ -24,10 +24,11 @@ type duplex struct {
 }
 
 type direction struct {
-	buf        []byte   // delivered, not yet read
+	buf        []byte   // muted mode only: delivered, not yet read
 	base       []byte   // backing array of buf when it was last empty
 	units      [][]byte // genuine units in write order
 	delivered  []byte   // everything handed to the reader so far (after tampering)
+	rd         int      // how much of delivered has been read
 	writerDone bool     // the writing party will not write any more in this phase
 	cut        bool     // man in the middle closed this direction: later units are discarded
 	mitm       *mitm
@@ -39,11 +40,41 @@ type endpoint struct {
 	closed bool
 }
 
-func newDuplex() (*duplex, *endpoint, *endpoint) {
+// newDuplex: hint[i] = expected number of bytes party i writes (capacity only).
+func newDuplex(hint [2]int) (*duplex, *endpoint, *endpoint) {
 	d := &duplex{live: true}
 	d.cond = sync.NewCond(&d.mu)
 	d.dir[0], d.dir[1] = &direction{}, &direction{}
+	for i, h := range hint {
+		if h > 0 {
+			if b, ok := bigPool.Get().([]byte); ok && cap(b) >= h {
+				d.dir[i].delivered = b[:0]
+			} else {
+				if h < bigBuf {
+					h = bigBuf
+				}
+				d.dir[i].delivered = make([]byte, 0, h)
+			}
+		}
+	}
 	return d, &endpoint{d: d, me: 0}, &endpoint{d: d, me: 1}
+}
+
+// bigPool recycles the delivered-bytes buffers of sessions with long scripts
+// (a fresh 0.5 MB buffer per case costs more than the cryptography).
+var bigPool sync.Pool
+
+const bigBuf = (longFrames + 16) * 1042
+
+func (d *duplex) recycle() {
+	d.mu.Lock()
+	defer d.mu.Unlock()
+	for _, dr := range d.dir {
+		if cap(dr.delivered) >= bigBuf {
+			bigPool.Put(dr.delivered[:0])
+		}
+		dr.delivered, dr.rd = nil, 0
+	}
 }
 
 func (e *endpoint) Read(p []byte) (int, error) {
@@ -54,7 +85,7 @@ func (e *endpoint) Read(p []byte) (int, error) {
 	if len(p) == 0 {
 		return 0, nil
 	}
-	for len(in.buf) == 0 {
+	for len(in.buf) == 0 && in.rd == len(in.delivered) {
 		if e.closed {
 			return 0, io.ErrClosedPipe
 		}
@@ -62,6 +93,11 @@ func (e *endpoint) Read(p []byte) (int, error) {
 			return 0, io.EOF
 		}
 		d.cond.Wait()
+	}
+	if in.rd < len(in.delivered) {
+		n := copy(p, in.delivered[in.rd:])
+		in.rd += n
+		return n, nil
 	}
 	n := copy(p, in.buf)
 	in.buf = in.buf[n:]
@@ -112,7 +148,6 @@ func (dr *direction) deliver(b []byte) {
 	if dr.cut {
 		return
 	}
-	dr.buf = append(dr.buf, b...)
 	dr.delivered = append(dr.delivered, b...)
 }
 
@@ -138,7 +173,7 @@ func (d *duplex) freeze() {
 func (d *duplex) pending(i int) int {
 	d.mu.Lock()
 	defer d.mu.Unlock()
-	return len(d.dir[i].buf)
+	return len(d.dir[i].buf) + len(d.dir[i].delivered) - d.dir[i].rd
 }
 
 // genuine returns the concatenation of the genuine units of direction i and the unit boundaries.
